@@ -250,6 +250,34 @@ Proof.
     rewrite <- !modpow_spec by lia. apply modpow_comm; lia.
 Qed.
 
+(* the sending side alone (no hypothesis on the ephemeral public value: the sender does not validate its own) *)
+Lemma new_kek_dh h (ep : envelope) (rnd : Z -> bytes) seed kl p g :
+  envelope_hash ep = Ok h -> gke_is_public_key ep = true -> gke_secret_alg ep = STR_DH -> u32b (gke_priv_len ep) = true ->
+  0 < p -> u32b kl = true -> fitsb kl p = true -> fitsb kl g = true ->
+  dh_group_params (gke_secret_params ep) kl p g ->
+  let nbytes := bytes_of_bits (gke_priv_len ep) in
+  let y := OS2IP (kdf c h seed KDS_SERVICE (lit16z "DH") nbytes) in let x := OS2IP (rnd nbytes) in
+  wfb (rnd nbytes) = true -> dh_pub_valid p (dh_public p g y) ->
+  gke_l2_key ep = concat (ffk_field_list {| ffk_key_length := kl; ffk_field_order := p; ffk_generator := g; ffk_public_key := dh_public p g y |}) ->
+  exists kid,
+    new_kek c rnd ep = Ok (kek_dh c h p kl (dh_public p g y) x, kid) /\
+    kid_key_info kid = concat (ffk_field_list {| ffk_key_length := kl; ffk_field_order := p; ffk_generator := g; ffk_public_key := dh_public p g x |}).
+Proof.
+  intros Hh' Hpp Hap Hpu Hp Hkl Hfp Hfg Gp nbytes y x Wx Vy Hl2.
+  destruct (k_ceil_priv_spec _ Hpu) as [Cg Cn].
+  set (kA := {| ffk_key_length := kl; ffk_field_order := p; ffk_generator := g; ffk_public_key := dh_public p g y |}) in *.
+  assert (WA : wf_ffk kA = true).
+  { unfold wf_ffk, kA. cbn [ffk_key_length ffk_field_order ffk_generator ffk_public_key]. rewrite Hkl, Hfp, Hfg. cbn [andb].
+    unfold dh_public, fitsb in *. pose proof (Z.mod_pos_bound (g ^ y) p Hp). lia. }
+  pose proof (compute_kek_dh h (gke_secret_params ep) (rnd nbytes) kA WA Hp Wx Gp Vy) as CK.
+  destruct (compute_public_key_dh (gke_secret_params ep) (rnd nbytes) kA WA Hp Wx) as [WB CP].
+  cbn [kA ffk_key_length ffk_field_order ffk_generator ffk_public_key] in CK, CP, WB. fold x in CK, CP, WB.
+  eexists. split.
+  - unfold new_kek. rewrite Hh'. cbn [bind]. rewrite Hpp. rewrite Cn. fold nbytes. rewrite Hap, Hl2.
+    fold kA. rewrite CK. cbn [bind]. rewrite CP. cbn [bind]. reflexivity.
+  - reflexivity.
+Qed.
+
 (* ---- ECDH: from the commutation law of the curve primitive ---- *)
 Definition ec_commutation_law : Prop := forall cv a b A B,
   ec_pub c cv a = Ok A -> ec_pub c cv b = Ok B -> ec_dh c cv a B = ec_dh c cv b A.
